@@ -36,6 +36,8 @@ use std::time::Duration;
 const FREEZER_INTERVAL: Duration = Duration::from_secs(60);
 const THRESHOLD_EPOCH: EpochNumber = 2;
 const MAX_FREEZE_LIMIT: BlockNumber = 30_000;
+#[cfg(feature = "verif-hooks")]
+static VERIF_FREEZE_LIMIT: std::sync::atomic::AtomicU64 = std::sync::atomic::AtomicU64::new(u64::MAX);
 
 pub const SHRINK_THRESHOLD: usize = 300;
 
@@ -183,6 +185,11 @@ impl Shared {
                 .expect("get_block_number"),
             frozen_number + MAX_FREEZE_LIMIT,
         );
+        #[cfg(feature = "verif-hooks")]
+        let threshold = cmp::min(
+            threshold,
+            frozen_number.saturating_add(VERIF_FREEZE_LIMIT.load(Ordering::SeqCst)),
+        );
 
         ckb_logger::trace!(
             "Freezer current_epoch {} number {} threshold {}",
@@ -214,6 +221,13 @@ impl Shared {
     #[cfg(feature = "verif-hooks")]
     pub fn verif_freeze(&self) -> Result<(), Error> {
         self.freeze()
+    }
+
+    /// Verification hook: the per-pass freeze limit (`MAX_FREEZE_LIMIT` blocks in a shipped node)
+    /// becomes a knob, so that short simulated chains reach it.
+    #[cfg(feature = "verif-hooks")]
+    pub fn verif_set_freeze_limit(limit: BlockNumber) {
+        VERIF_FREEZE_LIMIT.store(limit, Ordering::SeqCst);
     }
 
     fn wipe_out_frozen_data(
